@@ -43,6 +43,9 @@ FORMATS = {"FASTA": "x.fa", "AGP": "x.agp", "TPF": "x.tpf"}
 
 class C16(Check):
     pid = "C16"
+    level_text = (
+        "Exhaustive over configurations: every non-empty subset of pre-existing outputs x format x log x map, through the real CLI on scratch files, with the --clobber twins."
+    )
     technique = (
         "exhaustive enumeration of configurations on the real pretext-to-asm CLI (in-process, scratch files): every non-empty subset of "
         "pre-existing output files x output format x --write-log x single/multi-assembly map, with the --clobber twin of every subset"
